@@ -42,15 +42,7 @@ func runC01(env *lib.Env, rep *lib.Report) {
 	// that moves (leaf capacity >= 5) while the root stays as it is (the level below absorbs the split); the restart
 	// at the end replays the whole log against those pages
 	for n := 9; n <= 30; n++ {
-		name := fmt.Sprintf("t1x%d-single-rows", n)
-		rows := n
-		histSeeds[name] = func(w *world) *world {
-			ok := w.do(mkCreate("t1", worldSchemas["t1"]))
-			for i := 0; ok && i < rows; i++ {
-				ok = w.do(mkInsert(w.model, "t1", 1, false))
-			}
-			return okw(w, ok)
-		}
+		name := singleRowSeed(n)
 		for _, caps := range [][2]int{{5, 3}, {6, 4}, {5, 8}} {
 			cfgs = append(cfgs, histCfg{Name: fmt.Sprintf("leaf%d-int%d/%s", caps[0], caps[1], name), Opt: worldOpt{Leaf: caps[0], Internal: caps[1]}, Seed: name,
 				Alpha: alphaOpt{Tables: []string{"t1"}, Inserts: []int{1, 2}, Deletes: true}, Depth: d, FinalReopen: true})
